@@ -652,7 +652,11 @@ func runInvite(c *core.Ctx) {
 		os.WriteFile(filepath.Join(dir, "main.pangaea"), []byte(src), 0o644)
 		cmd := exec.Command("timeout", "60", cli, "main.pangaea")
 		cmd.Dir = dir
-		outb, _ := cmd.Output()
+		outb, rerr := cmd.Output()
+		if ee, isExit := rerr.(*exec.ExitError); isExit && ee.ExitCode() == 124 {
+			c.Incomplete("invite family: the binary did not finish within 60 s (machine overloaded?)") // never an oracle
+			return
+		}
 		m := model(stmts)
 		res := "[" + m.val + ", nil]"
 		if m.errKind != "" {
